@@ -67,6 +67,7 @@ func (c04) Phases() []kit.Phase {
 
 type c04Scenario struct {
 	ViaExec bool          `json:"as_directive,omitempty"` // the goal runs as a directive of a text given to Exec: first answer only, the error comes back from Exec
+	Via     string        `json:"via,omitempty"`          // directive | init (an initialization goal, another one queued behind it) | include (directive of an included file) | consult-query (directive of a file consulted by a query)
 	Query   string        `json:"query"`
 	Program string        `json:"program"`
 	Plan    []int         `json:"plan"`
@@ -284,7 +285,8 @@ func c04GenScenario(r *kit.Run) *c04Scenario {
 	}
 	sc.Program = sb.String()
 	sc.Query = c04Text(sc.Goal) + ", anchor(V1, V2, V3, V4)"
-	sc.ViaExec = g.Choose(5) == 0
+	sc.Via = []string{"directive", "init", "include", "consult-query", "", "", "", "", "", ""}[g.Choose(10)]
+	sc.ViaExec = sc.Via != ""
 	return sc
 }
 
@@ -443,7 +445,16 @@ func (c04) Exec(r *kit.Run) {
 		case out == "goerr":
 			return engine.Error(errors.New("simulated Go error in a predicate"))
 		}
-		panic("simulated panic in a predicate")
+		// whatever the value: a panic in a predicate is an error of the goal
+		switch visits % 4 {
+		case 0:
+			panic("simulated panic in a predicate")
+		case 1:
+			panic(42)
+		case 2:
+			panic(errors.New("simulated panic with an error value"))
+		}
+		panic(struct{ Code int }{7})
 	})
 	interp.Register0(engine.NewAtom("alloc_pt"), func(_ *engine.VM, k engine.Cont, env *engine.Env) *engine.Promise {
 		out := visit("alloc")
@@ -474,10 +485,26 @@ func (c04) Exec(r *kit.Run) {
 	ctx := kit.NewSimCtx(200000, context.Canceled)
 	gotOutcome := ""
 	if sc.ViaExec {
-		switch err := interp.ExecContext(ctx, ":- "+sc.Query+".\n"); {
+		fsys := kit.NewSimFS(nil, nil)
+		fsys.Files["inc.pl"] = []byte(":- " + sc.Query + ".\n")
+		interp.FS = fsys
+		var err error
+		switch sc.Via {
+		case "directive":
+			err = interp.ExecContext(ctx, ":- "+sc.Query+".\n")
+		case "init":
+			err = interp.ExecContext(ctx, ":- initialization(("+sc.Query+")).\n:- initialization(true).\n")
+		case "include":
+			err = interp.ExecContext(ctx, "c04_before(1).\n:- include(inc).\nc04_after(1).\n")
+		case "consult-query":
+			err = interp.QuerySolutionContext(ctx, "consult(inc).").Err()
+		default:
+			kit.Bug("c04 via %q", sc.Via)
+		}
+		switch {
 		case err == nil:
 			gotOutcome = "first-answer"
-		case strings.HasPrefix(err.Error(), "failed directive"):
+		case strings.HasPrefix(err.Error(), "failed directive"), strings.HasPrefix(err.Error(), "failed initialization goal"):
 			gotOutcome = "failed-directive"
 		default:
 			if _, ok := err.(engine.Exception); ok {
